@@ -222,6 +222,14 @@ func (s *scope) CreateScope(ctx context.Context) (Scope, error) {
 		return nil, ErrScopeDisposed
 	}
 	s.rootProvider.scopes[child] = struct{}{}
+	if atomic.LoadInt32(&child.disposed) != 0 {
+		// This scope was closed, and closed the child with it, between the two tracking
+		// steps: the child's own removal from the provider has already run (or will find
+		// nothing), so a closed scope would stay tracked until the provider is closed
+		delete(s.rootProvider.scopes, child)
+		s.rootProvider.scopesMu.Unlock()
+		return nil, ErrScopeDisposed
+	}
 	s.rootProvider.scopesMu.Unlock()
 
 	// Auto-close on context cancellation
